@@ -48,6 +48,18 @@ CLAIMED = {
         note="Counting over arbitrary histories (exactly-once as a global count) is not decided; the clauses are the per-step invariants from which it follows by induction. Trusted: sa/extmodel.py deque/dict models.",
         ref="DESIGN.md section 4 C08",
     ),
+    "C05": dict(
+        technique="trace predicates over all abstract paths of Gateway.logic: shape of the handler result per dispatched (command, sub-type) against the prescribed reply table; descriptor acceptance of constant payloads; AST rule for the presentation request",
+        text="Reply construction, decided on every abstract path for all versions / families / flavours: for each dispatched (command, sub-type) the handler result is None or a copy of the request with exactly the prescribed fields replaced by the prescribed values (set + stored/desired value for req; M/I selected by the metric flag; timegm for time; id response carrying the id reserved on that path; broadcast discover for gateway-ready from 2.0; reboot only under the reboot flag; firmware responses), everything else is silent; replies inherit the request's node id, the only override is broadcast 255; the presentation request goes to the looked-up node, child 255, once, from 2.0 only; every constructed reply's (command, sub-type) is defined in the version and constant payloads satisfy that version's payload rule.",
+        note="Not decided: which value is the latest as a function of the history, the clock. The reply table is taken from the property statement. Trusted: sa/descr.py acceptance of constants, reflection.",
+        ref="DESIGN.md section 4 C05",
+    ),
+    "C06": dict(
+        technique="path analysis of the allocator (freshness-by-construction forms, dominating bound check), reserve-before-reply dataflow on all id-request paths, no-removal scan, table agreement with the I_ID_RESPONSE rule",
+        text="Every non-None return of the allocator is fresh by construction (max of the known ids + k over a non-empty map, a constant >= 1 on the empty map, or dominated by `not in`) and dominated by id <= MAX_NODE_ID = 254 = upper bound of every version's I_ID_RESPONSE rule; on every path of the id-request handler the id in the response is the key inserted into the node map on that path (no insertion, no response); nothing removes keys from the node map; the reservation is followed by alert() (dirty) and the loader restores integer keys, so the allocator's memory survives a clean restart.",
+        note="An allocator written in a form other than the three recognised freshness arguments is reported as a violation of R1 (not fresh by any recognised argument). Uniqueness under direct user edits of gateway.sensors is outside the claim.",
+        ref="DESIGN.md section 4 C06",
+    ),
 }
 
 NOT_APPLICABLE = {
